@@ -55,6 +55,19 @@ def setIdx {α : Type} (l : List α) (i : Int64) (f : α → α) : M (List α) :
   | some n => .ok (l.modify n f)
   | none => .error .runtime
 
+/-- `n := copy(dst, src)`: the destination afterwards and the number of elements copied -/
+def copyInto {α : Type} (dst src : List α) : List α × Int64 :=
+  let n := min dst.length src.length
+  (src.take n ++ dst.drop n, Int64.ofNat n)
+
+/-- `binary.LittleEndian.Uint64(b)`: the first eight bytes, least significant first; panics on a shorter slice -/
+def leU64 (b : List UInt8) : M UInt64 :=
+  match b with
+  | b0 :: b1 :: b2 :: b3 :: b4 :: b5 :: b6 :: b7 :: _ =>
+    .ok (b0.toUInt64 ||| (b1.toUInt64 <<< 8) ||| (b2.toUInt64 <<< 16) ||| (b3.toUInt64 <<< 24) |||
+         (b4.toUInt64 <<< 32) ||| (b5.toUInt64 <<< 40) ||| (b6.toUInt64 <<< 48) ||| (b7.toUInt64 <<< 56))
+  | _ => .error .runtime
+
 def assert (c : Bool) : M Unit := if c then .ok () else .error .assertion
 
 /-- `a && b` where evaluating `b` may panic: `b` is only looked at when `a` holds -/
